@@ -782,10 +782,19 @@ Quat<T>::setRotation (const Vec3<T>& from, const Vec3<T>& to) IMATH_NOEXCEPT
         // from f0 to h0, then from h0 to t0.
         //
 
-        Vec3<T> h0 = (f0 + t0).normalized ();
+        //
+        // If f0 + t0 is no longer than a few rounding errors of f0 and
+        // t0, its direction is meaningless (it may even be parallel to
+        // f0): f0 and t0 are opposite to within rounding, and are
+        // treated as exactly opposite.
+        //
 
-        if ((h0 ^ h0) != 0)
+        Vec3<T> h0   = f0 + t0;
+        const T tiny = T (4) * std::numeric_limits<T>::epsilon ();
+
+        if ((h0 ^ h0) > tiny * tiny)
         {
+            h0.normalize ();
             setRotationInternal (f0, h0, *this);
 
             Quat<T> q;
